@@ -331,7 +331,10 @@ def write_if_changed(path, text):
 
 
 def main():
-    repo, outdir = sys.argv[1], sys.argv[2]
+    import os
+    here = os.path.dirname(os.path.dirname(os.path.dirname(os.path.abspath(__file__))))
+    repo = sys.argv[1] if len(sys.argv) > 1 else os.environ.get('VERIF_REPO', '/repo')
+    outdir = sys.argv[2] if len(sys.argv) > 2 else os.path.join(here, 'lean', 'PikaVerif', 'Gen')
     try:
         b = gen_bulk(open(os.path.join(repo, BULK)).read())
         c = gen_ciq(open(os.path.join(repo, CIQ)).read())
